@@ -249,7 +249,7 @@ fn probe_d10(rep: &mut Report) {
 pub fn run(ctx: &Ctx, rep: &mut Report) {
     let small = matches!(ctx.stage.as_str(), "valgrind" | "asan" | "miri");
     let (n_worlds, texts_per_world) = match ctx.stage.as_str() {
-        "miri" => (ctx.nshards, 6),
+        "miri" => (ctx.nshards, 14),
         "valgrind" => (ctx.nshards * 2, 12),
         "asan" => (ctx.n(160, 1600), 40),
         _ => (ctx.n(480, 16000), if ctx.quick() { 40 } else { 100 }),
